@@ -1,6 +1,6 @@
 (* C04 — correlation estimators and the n(z) formula are applied as documented.
    Statements only; proofs are in Proofs/EstimatorsP.v (and Proofs/JackknifeP.v). *)
-From Verif Require Import Prelude Jackknife JackknifeP Estimators EstimatorsP EstimatorsRP CorrAlgebra CorrAlgebraP.
+From Verif Require Import Prelude Jackknife JackknifeP Estimators EstimatorsP EstimatorsRP CorrAlgebra CorrAlgebraP PairIndex PairIndexP.
 From Coq Require Import Reals.
 Open Scope Q_scope.
 
@@ -515,4 +515,121 @@ Example C04_concrete_algebra :
   (* n(z) with dz = 1 and no autocorrelations is w_sp *)
   /\ c04_alg_nz_case [1] e None None [Some (3 # 2)] [[Some (12 # 7)]; [Some (12 # 7)]] = 0%nat
   /\ c04_alg_nz_case [1] e None None [Some (1 # 2)] [[Some (12 # 7)]; [Some (4 # 7)]] = 3%nat.
+Proof. vm_compute. repeat split; reflexivity. Qed.
+
+(* ------------------------------------------------ many patches (Model/PairIndex.v, Proofs/PairIndexP.v)
+   Nothing in the property depends on the number of patches N; an implementation does as soon as a flat pair
+   position i * N + j, a patch index or the length of a pair list is held in a fixed-width integer.
+   Over the integers the flat position identifies the pair, *)
+Theorem C04_flat_index_injective : forall N i j i' j',
+  (0 <= j < N)%Z -> (0 <= j' < N)%Z -> flat N i j = flat N i' j' -> i = i' /\ j = j'.
+Proof. exact flat_injective. Qed.
+Print Assumptions C04_flat_index_injective.
+
+Theorem C04_flat_index_roundtrip : forall N i j, (0 <= j < N)%Z -> unflat N (flat N i j) = (i, j).
+Proof. exact unflat_flat. Qed.
+Print Assumptions C04_flat_index_roundtrip.
+
+(* a signed integer of `bits` bits holds every flat position exactly when N^2 <= 2^(bits-1) ... *)
+Theorem C04_flat_index_fits_below : forall bits N i j,
+  (0 < bits)%Z -> (N * N <= 2 ^ (bits - 1))%Z -> in_range N i -> in_range N j ->
+  flat_w bits N i j = flat N i j.
+Proof. exact flat_fits_below. Qed.
+Print Assumptions C04_flat_index_fits_below.
+
+(* ... and wraps for some pair of every larger N *)
+Theorem C04_flat_index_wraps_from : forall bits N,
+  (0 < bits)%Z -> (0 < N)%Z -> (2 ^ (bits - 1) < N * N)%Z ->
+  exists i j, in_range N i /\ in_range N j /\ flat_w bits N i j <> flat N i j.
+Proof. exact flat_wraps_from. Qed.
+Print Assumptions C04_flat_index_wraps_from.
+
+(* the catalogs' patch id type, int16: exact up to 181 patches, wrong from 182 on *)
+Theorem C04_flat16_fits_181 : forall N i j,
+  (0 <= N <= 181)%Z -> in_range N i -> in_range N j -> flat_w 16 N i j = flat N i j.
+Proof. exact flat16_fits_181. Qed.
+Print Assumptions C04_flat16_fits_181.
+
+Theorem C04_flat16_wraps_from_182 : forall N,
+  (182 <= N)%Z -> exists i j, in_range N i /\ in_range N j /\ flat_w 16 N i j <> flat N i j.
+Proof. exact flat16_wraps_from_182. Qed.
+Print Assumptions C04_flat16_wraps_from_182.
+
+Theorem C04_flat8_fits_11_wraps_12 :
+  (forall N i j, (0 <= N <= 11)%Z -> in_range N i -> in_range N j -> flat_w 8 N i j = flat N i j)
+  /\ (forall N, (12 <= N)%Z -> exists i j, in_range N i /\ in_range N j /\ flat_w 8 N i j <> flat N i j).
+Proof. exact flat8_fits_11_wraps_12. Qed.
+Print Assumptions C04_flat8_fits_11_wraps_12.
+
+Theorem C04_flat32_fits_46340_wraps_46341 :
+  (forall N i j, (0 <= N <= 46340)%Z -> in_range N i -> in_range N j -> flat_w 32 N i j = flat N i j)
+  /\ (forall N, (46341 <= N)%Z -> exists i j, in_range N i /\ in_range N j /\ flat_w 32 N i j <> flat N i j).
+Proof. exact flat32_fits_46340_wraps_46341. Qed.
+Print Assumptions C04_flat32_fits_46340_wraps_46341.
+
+(* the wrapped position is read from the end of the array (numpy) and is ANOTHER valid pair: counts move silently *)
+Theorem C04_flat16_lands_on_other_pair :
+  exists N i j i' j', in_range N i /\ in_range N j /\ in_range N i' /\ in_range N j'
+    /\ (i, j) <> (i', j') /\ lands 16 N i j = (i', j') /\ lands 64 N i j = (i, j).
+Proof. exact flat16_lands_on_other_pair. Qed.
+Print Assumptions C04_flat16_lands_on_other_pair.
+
+(* ... but not for every N: with exactly 256 patches a 16-bit flat index is invisible *)
+Theorem C04_flat16_invisible_at_256 : forall i j, in_range 256 i -> in_range 256 j -> lands 16 256 i j = (i, j).
+Proof. exact flat16_invisible_at_256. Qed.
+Print Assumptions C04_flat16_invisible_at_256.
+
+(* the sparse pair list of a file (to_hdf) read back pair by pair (from_hdf) restores every count of every bin,
+   for any number of patches *)
+Theorem C04_sparse_roundtrip : forall B N (C : list mat) b i j,
+  (b < B)%nat -> (i < N)%nat -> (j < N)%nat ->
+  nth j (nth i (nth b (from_sparse B N (to_sparse N C)) []) []) 0 == nth j (nth i (nth b C []) []) 0.
+Proof. exact sparse_roundtrip_dense. Qed.
+Print Assumptions C04_sparse_roundtrip.
+
+(* restored through a 16-bit flat index it does not (182 patches, one count at (180, 8)) *)
+Theorem C04_sparse_roundtrip_wrapped_refuted :
+  let l := to_sparse 182 wrap_witness in
+  l = [(180%nat, 8%nat, [1])]
+  /\ restored (map (lands_nat 16 182) l) 180 8 0 = 0 /\ restored (map (lands_nat 16 182) l) 1 174 0 = 1
+  /\ restored (map (lands_nat 64 182) l) 180 8 0 = 1 /\ restored (map (lands_nat 64 182) l) 1 174 0 = 0.
+Proof. exact sparse_roundtrip_wrapped_refuted. Qed.
+Print Assumptions C04_sparse_roundtrip_wrapped_refuted.
+
+(* the estimator terms evaluated in one pass over a pair list (what the check of CorrFuncs with 100 .. 2000 patches
+   runs): sample k is the total of the pairs that do not involve patch k, *)
+Theorem C04_sparse_sample_is_recount : forall N b l k,
+  in_box N l -> (k < N)%nat -> nth k (sp_samples N b l) 0 == sp_loo b l k.
+Proof. exact sparse_sample_is_recount. Qed.
+Print Assumptions C04_sparse_sample_is_recount.
+
+(* value and samples are those of the dense model (sample_patch_sum of Jackknife.v) on the matrix the list stands for, *)
+Theorem C04_sparse_sums_are_dense : forall N b l,
+  in_box N l ->
+  sp_total b l == total (dense N b l)
+  /\ forall k, (k < N)%nat -> nth k (sp_samples N b l) 0 == sample (dense N b l) k.
+Proof. exact sparse_sums_are_dense. Qed.
+Print Assumptions C04_sparse_sums_are_dense.
+
+(* and the closed-form normalisations are the sums over the weight-product matrices of the dense model *)
+Theorem C04_big_normalisation_is_dense : forall auto u v,
+  (auto = true -> u = v) ->
+  big_den auto u v == total (weights_array auto u v)
+  /\ forall k, (k < length u)%nat -> (k < length v)%nat ->
+       nth k (big_den_loo auto u v) 0 == sample (weights_array auto u v) k.
+Proof. exact big_den_is_dense. Qed.
+Print Assumptions C04_big_normalisation_is_dense.
+
+Example C04_concrete_many_patches :
+  (* three patches, one bin, dd + dr: DD = 10 / 16, DR = 4 / 16, Davis-Peebles 10 / 4 - 1; without patch 0, 1, 2 *)
+  let impl := Some ([Some (3 # 2)], [[Some (19 # 2)]; [Some 2]; [Some (1 # 9)]]) in
+  c04_big_case 3 exa_big (Some exa_big_dr) None None impl = 0%nat
+  /\ c04_corr_case 3 (bpc_dense 3 exa_big) (Some (bpc_dense 3 exa_big_dr)) None None impl = 0%nat
+  (* the counts of pair (2, 1) restored at (0, 1): the same total, other samples *)
+  /\ c04_big_case 3 exa_big (Some exa_big_dr) None None
+       (Some ([Some (3 # 2)], [[Some (3 # 2)]; [Some 2]; [Some (7 # 3)]])) = 4%nat
+  /\ c04_big_case 3 exa_big (Some exa_big_dr) None None None = 1%nat
+  (* the thresholds *)
+  /\ flat_w 16 181 180 180 = 32760%Z /\ flat_w 16 182 180 8 = (-32768)%Z /\ lands 16 182 180 8 = (1, 174)%Z
+  /\ flat_w 8 12 10 8 = (-128)%Z /\ lands 8 12 10 8 = (1, 4)%Z.
 Proof. vm_compute. repeat split; reflexivity. Qed.
